@@ -154,6 +154,15 @@ func (s *segmentTimelineGenerator) completeRange(nrTracks uint32) (first, last u
 	return first, last, ok
 }
 
+// isNewest tells if seqNr is the newest sequence number in the buffer of a track.
+func (s *segmentTimelineGenerator) isNewest(trName string, seqNr uint32) bool {
+	sdb, ok := s.segDataBuffers[trName]
+	if !ok || sdb.nrItems() == 0 {
+		return false
+	}
+	return sdb.items[sdb.nrItems()-1].seqNr == seqNr
+}
+
 func (s *segmentTimelineGenerator) resize(newBufferSize uint32) {
 	for _, buf := range s.segDataBuffers {
 		buf.resize(newBufferSize)
